@@ -20,7 +20,8 @@ LEVEL_TEXT = (
 )
 TRUSTED = "onnxruntime CPU kernels (same kernels on both sides), onnx.checker, onnx ReferenceEvaluator (second opinion only)"
 RULE = (
-    "case = model tape + list of (pass index, parameters) of length 1-6 + wrapper kind. Non-trivial = at least one pass "
+    "case = model tape + list of (pass index, parameters) of length 1-6 + wrapper kind + optional prelude tape (another "
+    "model, possibly of another opset version, processed by the same passes first in the same process). Non-trivial = at least one pass "
     "reported modified=True and the model has >=1 of: control-flow body with a captured value, function call, duplicate "
     "sub-expression or initializer, optional input/output, output aliasing an input. distinct = case JSON."
 )
@@ -46,7 +47,8 @@ def strategy(tier, phase):
     from vlib import rmodel
 
     step = st.tuples(st.integers(0, len(PASSES) - 1), st.integers(0, 7)).map(list)
-    return st.fixed_dictionaries({"tape": rmodel.tape_strategy(), "steps": st.lists(step, min_size=1, max_size=6), "wrap": st.integers(0, 3)})
+    return st.fixed_dictionaries({"tape": rmodel.tape_strategy(), "steps": st.lists(step, min_size=1, max_size=6), "wrap": st.integers(0, 3),
+                                  "gen": st.just(2), "prelude": st.one_of(st.just([]), st.just([]), rmodel.tape_strategy(100))})
 
 
 def make_pass(idx, param):
@@ -87,7 +89,7 @@ def _evaluate(case):
     from vlib import evalmodel, rmodel
 
     try:
-        proto, features = rmodel.build(case["tape"])
+        proto, features = rmodel.build(case["tape"], case.get("gen", 1))
         steps = case["steps"]
         if not steps or any(not (isinstance(s, list) and len(s) == 2) for s in steps):
             raise KeyError
@@ -101,6 +103,17 @@ def _evaluate(case):
         return dict(failures=[], nontrivial=False, classes=["seed_not_runnable"])
     fails = []
     names = [PASSES[i % len(PASSES)] for i, _ in steps]
+    prelude = case.get("prelude") or []
+    if prelude:
+        # history: the same passes first process ANOTHER model (other tape, possibly another opset) in this process;
+        # what they do to the model under test must not depend on it (no state may leak between models)
+        try:
+            other, _ = rmodel.build(prelude, case.get("gen", 1))
+            om = ir.from_proto(other)
+            for i, p in steps:
+                om = make_pass(i, p)(om).model
+        except Exception:
+            pass
     model = ir.from_proto(proto)
     modified_any = False
     classes = []
@@ -124,6 +137,9 @@ def _evaluate(case):
                 model = r.model
                 modified_any = modified_any or r.modified
         classes.append(["plain", "Sequential", "PassManager", "functionalize"][wrap])
+        if prelude:
+            classes.append("with_prelude_model")
+        classes.extend(sorted(f for f in features if f.startswith("opset") or f == "duplicate_differs_in_optional_slot"))
     except Exception as e:
         root = e
         while root.__cause__ is not None:
